@@ -143,6 +143,13 @@ def kv_check(ctx, module, theorems, relevant, what, assumptions, procs=None, cas
             if idx is None:
                 continue
             diffs += 1
+            if case["ops"][idx].startswith("kv panicked"):
+                if reported < 3:
+                    reported += 1
+                    small, r = shrink_case(ctx, case, idx)
+                    txt = "".join(l + "\n" for l in (r[0] if r else small))
+                    violation(ctx, what + ": the store panicked inside %s (shrunk call sequence; the reference map defines an answer for every call)" % case["ops"][idx].split(" ")[2].replace("_", " "), txt, tag="panic")
+                continue
             if not relevant(case["ops"][idx]):
                 ctx.notes.append("difference outside this property's operations at: " + case["ops"][idx][:80])
                 # still a broken correspondence for the shared model: report once, without an input claim
